@@ -9,6 +9,7 @@ require (
 	github.com/transparency-dev/merkle v0.0.3-0.20240919113952-3c979d16ee14
 	github.com/transparency-dev/witness v0.0.0
 	golang.org/x/mod v0.24.0
+	golang.org/x/time v0.11.0
 	google.golang.org/grpc v1.71.1
 	k8s.io/klog/v2 v2.130.1
 )
@@ -23,7 +24,6 @@ require (
 	golang.org/x/sync v0.13.0 // indirect
 	golang.org/x/sys v0.32.0 // indirect
 	golang.org/x/text v0.24.0 // indirect
-	golang.org/x/time v0.11.0 // indirect
 	google.golang.org/genproto/googleapis/rpc v0.0.0-20250227231956-55c901821b1e // indirect
 	google.golang.org/protobuf v1.36.5 // indirect
 	gopkg.in/yaml.v3 v3.0.1 // indirect
